@@ -15,6 +15,9 @@ def unpack(key):
     return key >> 32, (key >> 16) & 0xFFFF, key & 0xFFFF
 
 
+import collections as _collections
+RULE_STATS = _collections.Counter()   # how often the premise of a rule was met (goes into the evidence)
+
 class Walker:
     def __init__(self, text, trace):
         self.text, self.trace = text, trace
@@ -32,6 +35,8 @@ class Walker:
         self.updated_while_disabled = set()
         self.cbcount = {}
         self.drops = {}
+        self.user_disp = set()        # handles whose Dispatcher clone the scenario still holds
+        self.unreleased_reported = set()
         # causes
         self.fdc = {}           # raw fd counters
         self.fd_users = {}      # fd -> set of handles using it
@@ -170,6 +175,18 @@ class Walker:
         self.cur = None
         self.cur_idle = None
 
+    def check_released(self, where):
+        """C06, release clause (theorem C06_released_by_end_of_dispatch): between two top-level operations every removed source
+        whose Dispatcher the scenario no longer holds has been dropped"""
+        for h in sorted(self.dead):
+            if h in self.user_disp or h in self.excused or h in self.failed_insert or h in self.unreleased_reported:
+                continue
+            RULE_STATS["C06/not-released: removed handles judged (dispatcher not user-held)"] += 1
+            if self.drops.get(h, 0) == 0:
+                self.unreleased_reported.add(h)
+                self.fail("C06", "not-released", "source %d was removed and nobody else holds its dispatcher, but its source/callback "
+                          "had not been dropped %s" % (h, where))
+
     def make_dead(self, h):
         if h in self.live:
             self.live.discard(h)
@@ -197,9 +214,12 @@ class Walker:
                         v[2] = "applied"
                     else:
                         del self.int_expect[k]
+        if op in (8, 9) and res == 0:
+            self.user_disp.discard(h)
         if op == 1:
             if res == 0:
                 self.live.add(h)
+                self.user_disp.add(h)
                 if len(ws) > 4:
                     self.key[h] = int(ws[4])
                 sp = self.spec.get(h)
@@ -302,6 +322,8 @@ class Walker:
             tag = ws[0]
             if tag == "17":
                 self.close_segment()
+                if cmd_i >= 0:
+                    self.check_released("when top-level operation %d had returned" % cmd_i)
                 cmd_i += 1
                 cmd = self.cmds[cmd_i] if cmd_i < len(self.cmds) else ["?"]
                 self.in_dispatch = False
@@ -485,6 +507,9 @@ class Walker:
             if tag == "9":
                 self.check_epoll([int(x) for x in ws[1:]])
                 continue
+        else:
+            self.close_segment()
+            self.check_released("at the end of the history")
         return self.fails
 
     def find_setdl_value(self, h, cmd_i):
